@@ -135,7 +135,7 @@ def appendTok (ts : List VTok) (v : VTok) : List VTok :=
 def mergeValue (prev next : Option (List VTok)) : Option (List VTok) :=
   match prev, next with
   | some p, some n =>
-    let p1 := if !p.isEmpty then appendTok p (.str [32]) else p
+    let p1 := if !p.isEmpty && !n.isEmpty then appendTok p (.str [32]) else p      -- `if prev_value and next_value and glue`
     some (n.foldl appendTok p1)
   | some p, none => if p.isEmpty then none else some p        -- `prev or next` then copy; [] or None → None
   | none, n => match n with | some (x :: xs) => some (x :: xs) | some [] => some [] | none => none
